@@ -258,10 +258,13 @@ class SamplerCore:
         try:
             # Remove pool-related attributes that can't be pickled
             if hasattr(self.config, "pool") and self.config.pool is not None:
+                # SamplerConfig is a frozen dataclass: bypass it to detach the pool
                 pool_state = self.config.pool
-                self.config.pool = None
-                d["sampler"] = dill.dumps(self)
-                self.config.pool = pool_state
+                object.__setattr__(self.config, "pool", None)
+                try:
+                    d["sampler"] = dill.dumps(self)
+                finally:
+                    object.__setattr__(self.config, "pool", pool_state)
             else:
                 d["sampler"] = dill.dumps(self)
         except Exception as e:
